@@ -63,6 +63,42 @@ def lwrLoop (r : Nat → M) : Nat → LWRSt M
 /-- `lwr_recursion(r)` for `r` of shape `(P+1, nc, nc)`: `(a, sigf)` -/
 def lwr (r : Nat → M) (P : Nat) : List M × M := ((lwrLoop r P).a, (lwrLoop r P).sigf)
 
+/-! ### the covariance stack as an OBJECT with other consumers (round 2, L8)
+
+`R = autocov_vector(x, nlags)` is one array.  Its diagonal sequences `R[c, c, :p+1]` are VIEWS; they are what the scalar
+estimators (`AR_est_LD(None, p, rxx=R[c, c])`, `AR_est_YW`, C10) and the one-channel recursion are handed when per-channel
+and multichannel models are fitted from one covariance estimate.  `post` = what a consumer leaves in the slice it was
+handed (today: what it found — the consumers only read); `runSliceCalls` threads the stack through a program of such
+calls; `lwrAfterCalls` is the block recursion on the stack afterwards. -/
+
+/-- a consumer call on the diagonal sequence of channel `c`, lags `0..p` -/
+structure SliceCall where
+  c : Nat
+  p : Nat
+
+section stack
+variable {K : Type}
+
+/-- the view `R[c, c, :p+1]` -/
+def sliceOf (diag : Nat → M → K) (r : Nat → M) (s : SliceCall) : List K :=
+  (List.range (s.p + 1)).map fun k => diag s.c (r k)
+
+/-- a view: what the consumer leaves in the slice IS what the stack holds -/
+def writeBack (setDiag : Nat → M → K → M) (dflt : K) (r : Nat → M) (s : SliceCall) (l : List K) : Nat → M :=
+  fun k => if k < s.p + 1 then setDiag s.c (r k) (l.getD k dflt) else r k
+
+def runSliceCalls (diag : Nat → M → K) (setDiag : Nat → M → K → M) (dflt : K) (post : List K → List K) :
+    List SliceCall → (Nat → M) → (Nat → M)
+  | [], r => r
+  | s :: ss, r => runSliceCalls diag setDiag dflt post ss (writeBack setDiag dflt r s (post (sliceOf diag r s)))
+
+/-- `lwr_recursion(R)` after the other consumers of `R` have run -/
+def lwrAfterCalls (diag : Nat → M → K) (setDiag : Nat → M → K → M) (dflt : K) (post : List K → List K)
+    (calls : List SliceCall) (r : Nat → M) (P : Nat) : List M × M :=
+  lwr (runSliceCalls diag setDiag dflt post calls r) P
+
+end stack
+
 /-- number of lags `MAR_est_LWR(x, order)` requests from `autocov_vector` — GENERATED from the source
 (`harness/translate_c11.py`; today `nlags=order + 1`) -/
 def marLags (order : Nat) : Nat := Nitime.Generated.FitModel.marNlags order
@@ -283,6 +319,26 @@ def showGOut : GrangerObj.Out (List Fit) Unit Unit → List String
   | .model none => ["E"]
   | _ => []
 
+/-- entry `[c, c]` of a lag matrix, and the matrix with that entry replaced (lists of rows) -/
+def diagL {K : Type} [Scalar K] (c : Nat) (m : List (List K)) : K := GMat.entry m c c
+def setDiagL {K : Type} (c : Nat) (m : List (List K)) (v : K) : List (List K) := m.set c ((m.getD c []).set c v)
+
+/-- `c:p,c:p,…` -/
+def parseSliceCalls? (s : String) : Option (List SliceCall) :=
+  if s = "-" then some [] else
+  (s.splitOn ",").mapM fun t => match t.splitOn ":" with
+    | [c, p] => do let c ← c.toNat?; let p ← p.toNat?; pure ⟨c, p⟩
+    | _ => none
+
+/-- one pair of `_model`'s loop -/
+def gFit1 (crit : String) (order maxo : Option Nat) (d : GIn) (q : Nat × Nat) : Option Fit :=
+  fitPair crit order maxo (d.data.size / d.nproc) (d.row q.1 ++ d.row q.2)
+
+def showGOutK : GrangerObj.OutK (Nat × Nat) Fit → List String
+  | .model (some fs) => fs.map fun f => "o" ++ showFit f.2
+  | .model none => ["E"]
+  | .done => []
+
 def handle (args : List String) : String :=
   match args with
   | ["lwr", n, rs] => match n.toNat?, parseCList? rs with
@@ -303,6 +359,15 @@ def handle (args : List String) : String :=
       let r := marEstLWR (M := GSq CF nc) (fun k => rs.getD k (GMat.zeros nc)) order
       "ok " ++ showMats r.1 ++ " " ++ showMats [r.2]
     | _, _, _ => "bad-op"
+  | ["marp", nc, order, prog, xs] => match nc.toNat?, order.toNat?, parseSliceCalls? prog, parseCList? xs with
+    | some nc, some order, some calls, some zs =>
+      -- `MAR_est_LWR` with other consumers (scalar estimators on `R[c, c, :p+1]`) of the same stack in between
+      if nc = 0 then "bad-op" else
+      let rs := autocovMats nc (zs.length / nc) (marLags order) zs
+      let r := lwrAfterCalls (M := GSq CF nc) (K := CF) diagL setDiagL ⟨0.0, 0.0⟩ id calls
+        (fun k => rs.getD k (GMat.zeros nc)) (marLags order - 1)
+      "ok " ++ showMats r.1 ++ " " ++ showMats [r.2]
+    | _, _, _, _ => "bad-op"
   | ["fit", crit, order, maxo, xs] => match order.toInt?, maxo.toInt?, parseCList? xs with
     | some order, some maxo, some zs =>
       match fitPair crit (optNat order) (optNat maxo) (zs.length / 2) zs with
@@ -351,6 +416,16 @@ def handle (args : List String) : String :=
       let outs := GrangerObj.run (gFit crit (optNat order) (optNat maxo)) (fun _ _ => ()) (fun _ => ()) ops
         (GrangerObj.construct d : GrangerObj.Obj GIn (List Fit) Unit Unit)
       "ok " ++ " ".intercalate (outs.flatMap showGOut)
+    | _, _, _ => "bad-op"
+  | "gseqf" :: crit :: order :: maxo :: toks => match order.toInt?, maxo.toInt?, toks.mapM parseGOp? with
+    | some order, some maxo, some (.setInput d :: ops) =>
+      -- failure histories: `_model` as the per-pair loop (`GrangerObj.runK`, discipline generated from the source)
+      let opsK : List (GrangerObj.OpK GIn) := ops.map fun o => match o with
+        | .setInput d => .setInput d
+        | _ => .readModel
+      let outs := GrangerObj.runK (fun d : GIn => d.ij) (gFit1 crit (optNat order) (optNat maxo)) GrangerObj.keepPartial opsK
+        (GrangerObj.constructK d)
+      "ok " ++ " ".intercalate (outs.flatMap showGOutK)
     | _, _, _ => "bad-op"
   | _ => "bad-op"
 
